@@ -49,8 +49,9 @@ def concretise(job, unit, res, workdir, log):
         info = lw.fn_info[fn]
         scalars = [nm for nm, t, isref in info['params'] if not t.derivs and not t.is_record()]
         count_ids = []
+        gnames = [g for (t, g) in ghosts if '*' not in t and '[' not in g]
         for b in spec_fn.get('buffers', []):
-            if b[1] in scalars and b[1] not in count_ids:
+            if (b[1] in scalars or b[1] in gnames) and b[1] not in count_ids:
                 count_ids.append(b[1])
         for ob in spec_fn.get('obj_buffers', []):
             if ob[1] not in count_ids:
@@ -72,7 +73,7 @@ def concretise(job, unit, res, workdir, log):
                     return out
                 stubs += lw.proto(inf['node']) + '\n{\n' + body + '\n}\n'
                 stub_fns.append(cn)
-        gtext = ''.join('%s %s;\n' % (t, g) for t, g in ghosts)
+        gtext = 'typedef unsigned short qx_char16;\ntypedef unsigned int qx_char32;\ntypedef int qx_wchar;\n' + ''.join('%s %s;\n' % (t, g) for t, g in ghosts)
         jd = os.path.join(workdir, 'cex_' + R.safe_name(job['name']))
         os.makedirs(jd, exist_ok=True)
         pre_c = '#ifdef QX_NATIVE\n' + job.get('native_pre', job.get('pre', '')) + '\n#else\n' + job.get('pre', '') + '\n#endif\n'
